@@ -703,6 +703,51 @@ def map_neuronlist_facts(repo):
     return start, stop_plus, kw_excl, first_is_nl
 
 
+def _be(n):
+    """boolean test over `inplace` / `parallel` -> Lean BE"""
+    if isinstance(n, ast.Name) and n.id in ('inplace', 'parallel'):
+        return '.' + n.id
+    if isinstance(n, ast.Constant) and isinstance(n.value, bool):
+        return '.tt' if n.value else '.ff'
+    if isinstance(n, ast.UnaryOp) and isinstance(n.op, ast.Not):
+        return f'(.not {_be(n.operand)})'
+    if isinstance(n, ast.BoolOp):
+        op = '.and' if isinstance(n.op, ast.And) else '.or'
+        e = _be(n.values[0])
+        for v in n.values[1:]:
+            e = f'({op} {e} {_be(v)})'
+        return e
+    raise ValueError('swap test is not a boolean expression over inplace / parallel: ' + ast.unparse(n)[:60])
+
+
+def swap_facts(repo):
+    """map_neuronlist: the `if` that guards `nl.neurons = res.neurons` and its other branch."""
+    tree = ast.parse((repo / 'navis' / 'utils' / 'decorators.py').read_text())
+    wrapper = _func(_func(tree, 'map_neuronlist'), 'wrapper')
+
+    def is_swap(s):
+        return (isinstance(s, ast.Assign) and len(s.targets) == 1 and isinstance(s.targets[0], ast.Attribute)
+                and s.targets[0].attr == 'neurons' and isinstance(s.value, ast.Attribute) and s.value.attr == 'neurons')
+    st = next((n for n in ast.walk(wrapper) if isinstance(n, ast.If) and any(is_swap(x) for x in n.body)), None)
+    if st is None:
+        raise ValueError('map_neuronlist: no `if …: nl.neurons = res.neurons` found')
+    sw = next(x for x in st.body if is_swap(x))
+    lst, res = _name(sw.targets[0].value), _name(sw.value.value)
+    guard = _be(st.test)
+
+    def is_ret(s):
+        return isinstance(s, ast.Assign) and len(s.targets) == 1 and _name(s.targets[0]) == lst and _name(s.value) == res
+    else_guard, else_ok = None, False
+    if len(st.orelse) == 1 and isinstance(st.orelse[0], ast.If):
+        e = st.orelse[0]
+        else_guard = _be(e.test)
+        else_ok = any(is_ret(x) for x in e.body) and not e.orelse
+    else:
+        else_ok = any(is_ret(x) for x in st.orelse)
+    returns = any(isinstance(n, ast.Return) and _name(n.value) == lst and n.lineno > st.lineno for n in ast.walk(wrapper))
+    return dict(guard=guard, else_guard=else_guard, assigns=bool(lst and res), else_ok=else_ok and returns)
+
+
 def df_facts(repo):
     """map_neuronlist_df: what the per-neuron frames are zipped with when the id column is written;
     NeuronProcessor.__call__: does it record the failure flags of the *unfiltered* results?"""
@@ -786,6 +831,7 @@ def generate(repo: Path):
     over, rules = zip_rule(repo)
     start, stop_plus, kw_excl, first_is_nl = map_neuronlist_facts(repo)
     dff = df_facts(repo)
+    swf = swap_facts(repo)
 
     def rule_lean(r):
         return ('{ kind := "%s", excludeTestsLoopKey := %s, iterableAndLenShape := %s, lenOp := "%s", lenOf := "%s", '
@@ -828,6 +874,13 @@ def exclPosStopPlus : Nat := {stop_plus}
 def exclKeywordUnlessIn : List String := [{', '.join('"%s"' % k for k in kw_excl)}]
 def procCalledWithListFirst : Bool := {_lean_bool(first_is_nl)}
 
+/-- `map_neuronlist`: the test guarding `nl.neurons = res.neurons` and the other branch -/
+def swapFacts : Navis.Zip.SwapFacts := {{
+  swapGuard := {swf['guard']},
+  elseGuard := {_lean_opt(swf['else_guard'])},
+  swapAssignsResultNeurons := {_lean_bool(swf['assigns'])},
+  elseReturnsResult := {_lean_bool(swf['else_ok'])} }}
+
 /-- `map_neuronlist_df`: what the result frames are zipped with when the id column is written -/
 def dfFacts : Navis.Zip.DfFacts := {{
   zipPartner := "{dff['zipPartner']}",
@@ -838,5 +891,5 @@ def dfFacts : Navis.Zip.DfFacts := {{
 end Navis.Gen.NblastJobs
 '''
     meta = dict(source=[str(p.relative_to(repo)) for p in srcs.values()] + ['navis/core/core_utils.py', 'navis/utils/decorators.py'],
-                programs=metas, smart=smart_meta, batch_calls=bc, map_sites=sites, df_facts=dff)
+                programs=metas, smart=smart_meta, batch_calls=bc, map_sites=sites, df_facts=dff, swap_facts=swf)
     return 'NblastJobs.lean', src, meta
